@@ -18,7 +18,7 @@ import (
 	"mellium.im/xmpp/verifharness/stall"
 )
 
-var forcedList = []string{"F1", "F2", "F3", "F4", "F5", "F6", "F7", "R1", "R2", "R3", "B1", "B2", "B3", "B4", "B5", "B6"}
+var forcedList = []string{"F1", "F2", "F3", "F4", "F5", "F6", "F7", "R1", "R2", "R3", "B1", "B2", "B3", "B4", "B5", "B6", "E1", "E2", "E3"}
 
 type freq struct {
 	rq, id string
@@ -347,6 +347,50 @@ func runForced(c *core.Case, id string) {
 		// manual trigger here: nothing is cancelled)
 		close(f.pl.cancelled)
 		finish(f)
+	case "E1", "E2", "E3":
+		// the request itself fails while it is being transmitted (its payload
+		// reader or marshaller fails after the first tokens) under a context
+		// that never ends; the peer sees the truncated request and answers it.
+		// Nobody waits for that reply: it goes to the handler, and the serve
+		// loop goes on.
+		pl := newPlan("iq", replySpec{"result", "now"})
+		w.mu.Lock()
+		w.plans["f"] = pl
+		w.mu.Unlock()
+		via := map[string]string{"E1": "SendIQ", "E2": "SendIQElement", "E3": "UnmarshalIQ"}[id]
+		w.log.add(ev{Ev: "begin", RQ: "f", Via: via, Kind: "iq", ID: "id-f", Note: "forced:transmission-fails"})
+		var err error
+		c.Guard(via, func() {
+			iq := stanza.IQ{Type: stanza.GetIQ, ID: "id-f"}
+			broken := &failingReader{toks: payload("f")[:1]}
+			switch via {
+			case "SendIQ":
+				_, err = w.p.S.SendIQ(context.Background(), iq.Wrap(broken))
+			case "SendIQElement":
+				_, err = w.p.S.SendIQElement(context.Background(), broken, iq)
+			default:
+				var v struct{ XMLName xml.Name }
+				err = w.p.S.UnmarshalIQ(context.Background(), iq.Wrap(broken), &v)
+			}
+		})
+		out := "got"
+		if err != nil {
+			out = "other:" + err.Error()
+		} else {
+			c.Violate("call:transmission-failed-yet-nil:"+via, "%s returned nil although its payload reader failed", via)
+		}
+		w.log.add(ev{Ev: "end", RQ: "f", Via: via, Out: out})
+		close(pl.returned)
+		// the first ping's answer flushes what the failed call left in the
+		// buffer; the second one is answered only if the reply to the truncated
+		// request has been routed
+		if !w.sync(1) || !w.sync(2) {
+			c.Notef("%s: sync ping not answered", id)
+		}
+		c.Count("failed_transmissions_answered_by_peer", 1)
+		fd := make(chan struct{})
+		close(fd)
+		finish(&freq{rq: "f", id: "id-f", pl: pl, done: fd})
 	case "R1", "R2", "R3":
 		rq, mid := "r", "mid-r"
 		var pl *plan
@@ -425,4 +469,16 @@ func runForced(c *core.Case, id string) {
 		}
 		finish(f)
 	}
+}
+
+// failingReader returns its tokens and then an error that is not io.EOF.
+type failingReader struct{ toks []xml.Token }
+
+func (f *failingReader) Token() (xml.Token, error) {
+	if len(f.toks) == 0 {
+		return nil, errors.New("verif: payload reader failed")
+	}
+	t := f.toks[0]
+	f.toks = f.toks[1:]
+	return t, nil
 }
